@@ -379,3 +379,60 @@ Print Assumptions C07_length_checks_translated.
 Print Assumptions C07_plain_in_compressed_accepted.
 Print Assumptions C07_compressed_empty_frame_rejected.
 Print Assumptions C07_conn_stream.
+
+(* ====================================================================================================
+   Extension 2: net/conn.go by structured translation (Gen/C07gen.v cs_*, Model/C07_connsyntax.v) and an
+   interpreter of the skeletons (Proofs/C07_connskel.v). *)
+From GoMC Require Import Model.C07_connsyntax Proofs.C07_connskel.
+
+(* ReadPacket = p.UnPack(c.Reader, c.threshold); WritePacket = p.Pack(c.Writer, c.threshold) (the threshold
+   field is read at the call); SetThreshold assigns it; SetCipher replaces Reader by
+   cipher.StreamReader{S: decoStream, R: c.Socket} and Writer by cipher.StreamWriter{S: ecoStream, W: c.Socket}
+   (both directions, directly around the raw socket); Conn literals: Reader = Writer = Socket, threshold -1 *)
+Theorem C07_conn_skeleton_structured :
+  C07gen.cs_ReadPacket = expected_cs_ReadPacket /\ C07gen.cs_WritePacket = expected_cs_WritePacket /\
+  C07gen.cs_SetThreshold = expected_cs_SetThreshold /\ C07gen.cs_SetCipher = expected_cs_SetCipher /\
+  C07gen.cs_fields = expected_cs_fields /\ C07gen.cs_literals = expected_cs_literals.
+Proof.
+  exact (conj cs_ReadPacket_skel_ok (conj cs_WritePacket_skel_ok (conj cs_SetThreshold_skel_ok
+        (conj cs_SetCipher_skel_ok (conj cs_fields_skel_ok cs_literals_skel_ok))))).
+Qed.
+
+(* the model's Conn operations ARE the interpretation of the translated methods on the image of a model Conn
+   (reader / writer values are the raw socket or stream objects layered around other values; a read decrypts
+   layer by layer exactly the bytes UnPack takes and advances the stream it went through) *)
+Theorem C07_conn_methods_translated :
+  forall (cs : Type) (enc1 dec1 : cs -> N -> N * cs) (deflate : list N -> list N) (inflate : list N -> option (list N)),
+  (forall l, In l C07gen.cs_literals -> iliteral cs l = Some (embed cs (wrap_conn2 cs))) /\
+  (forall c t, iset_threshold cs (embed cs c) t = Some (embed cs (set_threshold2 cs c t))) /\
+  (forall c eco deco, iset_cipher cs (embed cs c) eco deco = Some (embed cs (set_cipher2 cs c eco deco))) /\
+  (forall c pool old wire,
+     iread_packet cs enc1 dec1 inflate (embed cs c) pool old wire
+     = fmap_conn cs (read_packet2 cs dec1 inflate c pool old wire)) /\
+  (forall c pool p,
+     iwrite_packet cs enc1 dec1 deflate (embed cs c) pool p
+     = Some (fst (write_packet2 cs enc1 deflate c pool p), embed cs (snd (write_packet2 cs enc1 deflate c pool p)))).
+Proof.
+  intros cs enc1 dec1 deflate inflate.
+  exact (conj (iliteral_is_model cs) (conj (iset_threshold_is_model cs) (conj (iset_cipher_is_model cs)
+        (conj (iread_packet_is_model cs enc1 dec1 inflate) (iwrite_packet_is_model cs enc1 dec1 deflate))))).
+Qed.
+
+(* the Conn-level stream theorem, stated of the interpretation of the translated skeletons *)
+Theorem C07_conn_stream_translated :
+  forall (cs : Type) (enc1 dec1 : cs -> N -> N * cs) (deflate : list N -> list N)
+         (inflate : list N -> option (list N)) (sync : cs -> cs -> Prop),
+  zlib_inverse deflate inflate -> zlib_fits deflate -> stream_inverse cs enc1 dec1 sync ->
+  forall (evs : list (ev cs)) (ca cb : conn2 cs) (old : rstate) (rest : list N),
+  linked cs sync ca cb -> evs_ok cs sync evs ->
+  exists wire ia cb',
+    isend_all cs enc1 dec1 deflate (embed cs ca) evs = Some (wire, ia) /\
+    irecv_all cs enc1 dec1 inflate (embed cs cb) evs old (wire ++ rest)
+    = FOk (thread old (packets_of cs evs), embed cs cb') rest /\
+    ia = embed cs (snd (send_all cs enc1 deflate ca evs)) /\
+    linked cs sync (snd (send_all cs enc1 deflate ca evs)) cb'.
+Proof. exact conn_stream_translated. Qed.
+
+Print Assumptions C07_conn_skeleton_structured.
+Print Assumptions C07_conn_methods_translated.
+Print Assumptions C07_conn_stream_translated.
